@@ -103,3 +103,17 @@ func VerifHarness_C08_icmp() {
 	}
 	verifAssert("icmp/action-iff-match", got == want)
 }
+
+// VerifHarness_C08_catchall: positive CIDR lists that contain the catch-all CIDR, alone or next to
+// narrower CIDRs (a positive list is a disjunction, so the catch-all makes it match everything),
+// on the source side, the destination side or both; negated lists alongside.
+func VerifHarness_C08_catchall() {
+	lists := [][]string{nil, {"0.0.0.0/0"}, {"10.0.0.0/8", "0.0.0.0/0"}, {"0.0.0.0/0", "10.1.0.0/16", "192.168.7.0/24"}, {"10.0.0.0/8"}}
+	r := &proto.Rule{Action: []string{"allow", "deny"}[verifChoose("action", 2)], Protocol: &proto.Protocol{NumberOrName: &proto.Protocol_Name{Name: "tcp"}}}
+	r.SrcNet = lists[verifChoose("src", len(lists))]
+	r.DstNet = lists[verifChoose("dst", len(lists))]
+	if verifChoose("not-src", 2) == 1 {
+		r.NotSrcNet = []string{"10.1.2.0/24"}
+	}
+	verifCheckRule(verifRenderer(), r)
+}
